@@ -8,47 +8,53 @@
 (* Consistent = FALSE: any mix (e.g. 120 ms of look-ahead followed by a bare 20 ms frame); the ghost   *)
 (*                     `ahead` is capped by AheadCap through a state constraint.                       *)
 EXTENDS AnalysisRing
-CONSTANTS FsC, LookAheads, Paths, Consistent, AheadCap, WithBareGet
+CONSTANTS FsC, LookAheads, Paths, Consistent, AheadCap, WithBareGet, FrameSel   \* FrameSel: frame sizes in 2.5 ms units
 VARIABLES st, Fs, ahead, drift, wr, last
 vars == <<st, Fs, ahead, drift, wr, last>>
 (* ghosts: ahead = true (unwrapped) distance writer - reader in 24 kHz samples, from independent       *)
 (* accounting of what was pushed and what was consumed; drift = ahead - To24(analysis_offset);         *)
 (* wr = slots written since the last reset; last = what the last step did.                            *)
 
-NoLast == [k |-> "none", ok |-> TRUE, term |-> TRUE, reads |-> {}, valid |-> 0, pos0 |-> 0, nwin |-> 0, dd |-> 0, la |-> 0]
+\* `last` holds only verdicts about the step just taken (all TRUE when the theorems hold, so that it does not multiply
+\* the state space) and two witness flags
+NoLast == [ok |-> TRUE, gt |-> TRUE, vw |-> TRUE, dd |-> TRUE, rs |-> TRUE, inval |-> FALSE, many |-> FALSE]
 
 Init == /\ Fs \in FsC /\ st = InitState /\ ahead = 0 /\ drift = 0 /\ wr = {} /\ last = NoLast
 
 DoRun(fs, k, p) ==
   LET afsIn == fs + k * SubLen(Fs)
       paths == [i \in 1..(MAXLOOK + 1) |-> p]
-      r     == Run(st, afsIn, fs, Fs, paths)
-      a2    == ahead + r.pushed - To24(Fs, fs)
-  IN /\ (Consistent => Min(MAXLOOK * Chunk(Fs), afsIn) >= st.aoff)
+  IN \E r \in {Run(st, afsIn, fs, Fs, paths)} : \E a2 \in {ahead + r.pushed - To24(Fs, fs)} :
+     /\ (Consistent => Min2(MAXLOOK * Chunk(Fs), afsIn) >= st.aoff)
      /\ st' = r.s
      /\ ahead' = a2
      /\ drift' = a2 - To24(Fs, r.s.aoff)
      /\ wr' = wr \cup {r.wins[i].slot : i \in 1..Len(r.wins)}
-     /\ last' = [k |-> "run", ok |-> r.ok, term |-> r.get.term, reads |-> r.get.reads, valid |-> r.get.valid, pos0 |-> r.get.pos0,
-                 nwin |-> Len(r.wins), dd |-> (a2 - To24(Fs, r.s.aoff)) - drift, la |-> r.get.la]
+     /\ last' = [NoLast EXCEPT !.ok = r.ok,
+                                !.gt = (r.get.trips <= DETECT_SIZE /\ \A i \in r.get.reads : InRing(i)),
+                                !.vw = (r.get.valid = 1 => r.get.pos0 \in wr'),
+                                !.dd = ((a2 - To24(Fs, r.s.aoff)) - drift >= 0),
+                                !.inval = (r.get.valid = 0),
+                                !.many = (Len(r.wins) >= MAXLOOK)]
      /\ UNCHANGED Fs
 
 \* a bare tonality_get_info (the encoder's per-coded-frame reads advance the reader only after having
 \* restored it, so in situ the net effect is that of run_analysis' own read; the bare call is modelled to
 \* cover the function for every len at every state).  It consumes audio: ahead shrinks.
 DoGet(len) ==
-  LET g == Get(st, len, Fs) IN
+  \E g \in {Get(st, len, Fs)} :
   /\ WithBareGet /\ ahead - To24(Fs, len) >= To24(Fs, st.aoff)      \* the reader is never asked to pass the writer
   /\ st' = g.s /\ ahead' = ahead - To24(Fs, len) /\ drift' = ahead' - To24(Fs, st.aoff)
   /\ wr' = wr
-  /\ last' = [k |-> "get", ok |-> TRUE, term |-> g.term, reads |-> g.reads, valid |-> g.valid, pos0 |-> g.pos0, nwin |-> 0,
-              dd |-> 0, la |-> g.la]
+  /\ last' = [NoLast EXCEPT !.gt = (g.trips <= DETECT_SIZE /\ \A i \in g.reads : InRing(i)),
+                             !.vw = (g.valid = 1 => g.pos0 \in wr)]
   /\ UNCHANGED Fs
 
-DoReset == /\ st' = Reset(st) /\ ahead' = 0 /\ drift' = 0 /\ wr' = {} /\ last' = [NoLast EXCEPT !.k = "reset"] /\ UNCHANGED Fs
+DoReset == /\ st' = Reset(st) /\ ahead' = 0 /\ drift' = 0 /\ wr' = {} /\ last' = [NoLast EXCEPT !.rs = (Reset(st) = InitState)] /\ UNCHANGED Fs
 
-Next == \/ \E fs \in FrameSizes(Fs), k \in LookAheads, p \in Paths : DoRun(fs, k, p)
-        \/ \E len \in FrameSizes(Fs) : DoGet(len)
+FS == {fs \in FrameSizes(Fs) : fs \div SubLen(Fs) \in FrameSel}
+Next == \/ \E fs \in FS, k \in LookAheads, p \in Paths : DoRun(fs, k, p)
+        \/ \E len \in FS : DoGet(len)
         \/ DoReset
 Spec == Init /\ [][Next]_vars
 Bound == ahead <= AheadCap
@@ -60,10 +66,10 @@ Ranges == StateOK(st)
 \* T2 no write beyond inmem, no pcm read outside the caller's buffer, slot indices inside info[]
 MemSafe == last.ok
 \* T3 every loop of tonality_get_info terminates and dereferences only info[0..99]
-GetTotal == last.term /\ \A i \in last.reads : InRing(i)
+GetTotal == last.gt
 \* T4 a slot reported valid was written since the last reset (by the full path, or a silence copy of such a slot)
 ValidIsWritten == /\ \A i \in 0..(DETECT_SIZE - 1) : st.valid[i] = 1 => i \in wr
-                  /\ (last.k \in {"run", "get"} /\ last.valid = 1) => last.pos0 \in wr
+                  /\ last.vw
 \* T5 analysis_offset returns to its range after every run_analysis: 0 <= offset <= 95 chunks - 2.5 ms
 OffsetRange == st.aoff >= 0 /\ st.aoff <= MAXLOOK * Chunk(Fs) - SubLen(Fs)
 \* T6 the index machine keeps time: writer position - reader position (mod ring) = audio pushed - audio consumed,
@@ -71,22 +77,30 @@ OffsetRange == st.aoff >= 0 /\ st.aoff <= MAXLOOK * Chunk(Fs) - SubLen(Fs)
 KeepsTime == (WriterPos(st) - ReaderPos(st) - ahead) % RingSpan = 0
 \* T7 the reader never overtakes the writer: the true distance is the look-ahead the code believes in plus a drift
 \*    that is never negative and only grows - and it grows exactly in calls that supply less than was promised
-NeverOvertakes == ahead >= 0 /\ drift >= 0 /\ ahead = To24(Fs, st.aoff) + drift /\ last.dd >= 0
+NeverOvertakes == ahead >= 0 /\ drift >= 0 /\ ahead = To24(Fs, st.aoff) + drift /\ last.dd
 \* T8 (Consistent) no drift at all and the writer never laps the reader: distance < ring
 NoDrift == Consistent => (drift = 0 /\ ahead <= To24(Fs, MAXLOOK * Chunk(Fs) - SubLen(Fs)) /\ ahead < RingSpan - WIN)
 \* T10 reset state = init state
-ResetIsInit == last.k = "reset" => st = InitState
+ResetIsInit == last.rs
 \* T11 the encoder's per-coded-frame reads end where the single read ended: restoring (read_pos, read_subframe) and
 \*     reading nb_frames times enc_frame_size leaves the reader exactly where tonality_get_info(frame_size) left it
 MultiFrameSame ==
   \A fs \in FrameSizes(Fs), silk \in BOOLEAN :
-     LET e == EncFrame(fs, Fs, silk) a == Get(st, fs, Fs).s b == GetN(st, e, Fs, fs \div e) IN a.rp = b.rp /\ a.rsub = b.rsub
+     LET e == EncFrame(fs, Fs, silk) a == GetPos(st, fs, Fs) b == GetN(st, e, Fs, fs \div e) IN a.rp = b.rp /\ a.rsub = b.rsub
+
+\* Lemmas that justify the summarised loop of Feed: at every reachable state a full 20 ms piece completes exactly one
+\* window and leaves mem_fill unchanged, and Feed equals Piece iterated for calls of up to two pieces (every length)
+FullPieceLemma == \A p \in Paths : LET r == Piece(st, Fs, Chunk(Fs), p) IN
+                     r.win /\ r.ok /\ r.s.mf = (IF st.init = 0 THEN HIST ELSE st.mf)
+FeedIsPieces == \A n \in 1..16 : \A p1 \in Paths, p2 \in Paths :
+                   LET pl == n * SubLen(Fs) pp == [i \in 1..3 |-> IF i = 1 THEN p1 ELSE p2] IN
+                   Feed(st, Fs, pl, 0, pl, pp).s = Feed2(st, Fs, pl, pp)
 
 \* Witnesses (must be REFUTED): under inconsistent callers the writer laps the reader; invalid returns happen;
 \* a silence copy makes a slot valid; all three paths and the clamp are reached
 NoLap        == ahead < RingSpan
-NeverInvalid == ~(last.k = "run" /\ last.valid = 0 /\ wr # {})
+NeverInvalid == ~last.inval
 NeverDrift   == drift = 0
 NeverFull    == Cardinality(wr) < DETECT_SIZE
-NeverManyWin == last.nwin < MAXLOOK
+NeverManyWin == ~last.many
 =============================================================================
